@@ -17,6 +17,7 @@
 import AioftpModel.Lemmas.Backends
 import AioftpModel.Generated.PathIO
 import AioftpModel.Lemmas.MemHandles
+import AioftpModel.Lemmas.FsCensus
 
 namespace C18
 open Model Model.Fs Model.Backends Model.Session Model.SessionB Model.FsLemmas Py Generated
@@ -268,6 +269,35 @@ theorem async_methods_run_in_executor :
 
 open Generated.PathIO in
 example : pathioMethods.length = 14 := by decide
+
+/-! ## a rename conserves what the tree holds; a directory cannot go below itself -/
+
+/-- **fact_memory_rename_guards**: as regenerated from `pathio.py`, `MemoryPathIO.rename` refuses - before it changes
+    anything, in this order - a missing source, a missing destination parent, a destination parent that is no
+    directory, and a source that is among the destination's parents at any depth: the guards of `Fs.rename` -/
+theorem fact_memory_rename_guards : Generated.PathIO.memoryRenameGuardsAsModelled = true := by decide
+
+/-- **rename_conserves_the_tree**: on EVERY well-formed tree, a rename onto a free name that succeeds leaves the same
+    files, byte for byte, and the same number of directories: the entries after are a permutation of the entries
+    before - nothing is lost, nothing invented, only names change (also: `wf_preserved_mem`) -/
+theorem rename_conserves_the_tree {fs : Fs} (h : WF fs) (src dst : Path) (hdst : lookup fs dst = none)
+    (hok : (Fs.rename fs src dst).2 = true) :
+    ((Fs.rename fs src dst).1.map (·.2)).Perm (fs.map (·.2)) :=
+  rename_census h src dst hdst hok
+
+/-- **rename_below_itself_refused**: a directory cannot be moved to a place below itself, however deep, through
+    existing directories or not: refused, and the tree is what it was -/
+theorem rename_below_itself_refused (fs : Fs) (src dst : Path) (hp : src <+: dst) (hne : src ≠ dst) :
+    Fs.rename fs src dst = (fs, false) :=
+  Model.FsLemmas.rename_below_itself_refused fs src dst hp hne
+
+/-- the premises are met: a directory with a file in it moves under another directory; two levels below itself it does not -/
+example :
+    let fs : Fs := [(["a".toList], .dir), (["a".toList, "b".toList], .dir), (["a".toList, "f".toList], .file [1, 2]), (["c".toList], .dir)]
+    (Fs.rename fs ["a".toList] ["c".toList, "moved".toList]).2 = true ∧
+    lookup fs ["c".toList, "moved".toList] = none ∧
+    lookup (Fs.rename fs ["a".toList] ["c".toList, "moved".toList]).1 ["c".toList, "moved".toList, "f".toList] = some (.file [1, 2]) ∧
+    Fs.rename fs ["a".toList] ["a".toList, "b".toList, "deeper".toList] = (fs, false) := by decide
 
 /-! ## several transfers of one file at the same time (finding F19)
 
